@@ -297,12 +297,15 @@ Join ==
   /\ UNCHANGED <<cfg, fsv, hv, wv, tv, out, faults, firstFail, cleanupFail, last>>
 
 CloseWorker(w, r) ==
-  /\ pc = "closeworkers" /\ w \in Workers /\ hw[w] /\ r \in {"ok", "fail"}
+  /\ w \in Workers /\ hw[w] /\ r \in {"ok", "fail"}
   /\ hw' = [hw EXCEPT ![w] = FALSE]
-  /\ Bk("CloseWorker", 0, 0, r, exc \/ r = "fail")
-  /\ IF r = "fail" THEN Goto("rmfile")                  \* remaining handles leak; the exception propagates
-     ELSE IF \E v \in Workers \ {w} : hw[v] THEN Goto("closeworkers")
-     ELSE IF exc THEN Goto("rmfile") ELSE Goto("release")
+  /\ \/ /\ pc = "closeworkers"
+        /\ Bk("CloseWorker", 0, 0, r, exc \/ r = "fail")
+        /\ IF r = "fail" THEN Goto("rmfile")           \* the other handles are not closed here; the exception propagates
+           ELSE IF \E v \in Workers \ {w} : hw[v] THEN Goto("closeworkers")
+           ELSE IF exc THEN Goto("rmfile") ELSE Goto("release")
+     \/ /\ pc \in {"rmfile", "rmdir", "raise"} /\ r = "ok"   \* a handle left open by a failed close loop is
+        /\ Bk("CloseWorker", 0, 0, r, exc) /\ Goto(pc)       \* closed when the frame is released
   /\ UNCHANGED <<cfg, fsv, hmain, wv, tv, out, cleanupFail>>
 
 NoWorkerHandle ==   \* no worker ever opened a handle (every task failed before)
@@ -379,19 +382,20 @@ InvalidateDone ==
   /\ IF cfg.shard /\ cur < cfg.nt THEN Ctl("mktmp", "cb", cur + 1, nxt, 1) ELSE Goto("model")
   /\ UNCHANGED <<cfg, fsv, hv, wv, tv, exc, out, faults, firstFail, cleanupFail, last>>
 
-(* serialising and writing the model file: no effect on the data file(s)        *)
+(* serialising and writing the model file (open, write, close): no effect on the data file(s);
+   a failing step raises once the remaining steps (the close of `with open`) are done      *)
 ModelIO(r) ==
   /\ pc = "model" /\ r \in {"ok", "fail"}
-  /\ Bk("ModelIO", 0, 0, r, r = "fail")
-  /\ Goto(IF r = "ok" THEN "model" ELSE "raise")
+  /\ Bk("ModelIO", 0, 0, r, exc \/ r = "fail")
+  /\ Goto("model")
   /\ UNCHANGED <<cfg, fsv, hv, wv, tv, out, cleanupFail>>
 
 Return ==
-  /\ pc = "model" /\ out' = "ok" /\ Goto("done")
+  /\ pc = "model" /\ ~exc /\ out' = "ok" /\ Goto("done")
   /\ UNCHANGED <<cfg, fsv, hv, wv, tv, exc, faults, firstFail, cleanupFail, last>>
 
 Raise ==
-  /\ pc = "raise" /\ out' = "raised" /\ Goto("done")
+  /\ (pc = "raise" \/ (pc = "model" /\ exc)) /\ out' = "raised" /\ Goto("done")
   /\ UNCHANGED <<cfg, fsv, hv, wv, tv, exc, faults, firstFail, cleanupFail, last>>
 
 Crash ==
